@@ -6,10 +6,15 @@
 #include <common/vh.h>
 #include <sim_chain.h>
 
+#include <addresstype.h>
+#include <chain.h>
+#include <coins.h>
 #include <consensus/merkle.h>
+#include <crypto/sha256.h>
 #include <script/script.h>
 
 #include <algorithm>
+#include <chrono>
 #include <functional>
 #include <map>
 #include <set>
@@ -33,8 +38,17 @@ Cls ParseCls(const std::string& s)
 
 constexpr CAmount MAXM = int64_t{21000000} * 100000000;
 
-struct Sample {
-    std::string json;
+// diagnostics only (never decides anything): accumulated wall time per phase when --p prof=1
+struct Prof {
+    static bool& On() { static bool on = false; return on; }
+    static std::map<std::string, double>& Acc() { static std::map<std::string, double> m; return m; }
+    const char* name;
+    std::chrono::steady_clock::time_point t0;
+    explicit Prof(const char* n) : name(n), t0(std::chrono::steady_clock::now()) {}
+    ~Prof()
+    {
+        if (On()) Acc()[name] += std::chrono::duration<double, std::milli>(std::chrono::steady_clock::now() - t0).count();
+    }
 };
 
 struct Hist {
@@ -135,6 +149,7 @@ struct Hist {
     //! a handful of valid txs on top of parent (may chain inside the block)
     std::vector<CTransactionRef> ValidTxs(const RefBlock* parent, size_t maxn, std::set<COutPoint>& used, CAmount* fees_out = nullptr)
     {
+        Prof p("gen_txs");
         std::vector<CTransactionRef> txs;
         std::vector<Spendable> avail = Coins(parent, used);
         rng.shuffle(avail);
@@ -254,11 +269,20 @@ struct Hist {
             if (flushed_between) Obs("flushes_mid_reorg");
         }
         if (conn) Obs("connects", conn);
-        Report(CheckTip(node, led), action);
-        Report(CheckIndex(node, led), action);
+        {
+            Prof p("mon_tip");
+            Report(CheckTip(node, led), action);
+        }
+        {
+            Prof p("mon_index");
+            Report(CheckIndex(node, led), action);
+        }
         size_t probed = 0;
         uint256 uh;
-        Report(CheckUtxoProbe(node, led, &probed, &uh), action);
+        {
+            Prof p("mon_utxo");
+            Report(CheckUtxoProbe(node, led, &probed, &uh), action);
+        }
         Obs("utxo_probes", (int64_t)probed);
         const uint256 tip = node.TipHash();
         Report(revisit.Observe(tip, uh), action);
@@ -285,10 +309,27 @@ struct Hist {
     {
         SyncClock();
         Snap before{};
-        if (expect_unchanged) before = Snapshot();
-        DeliverResult d = Deliver(node, led, b, o);
+        if (expect_unchanged) {
+            Prof p("snapshot");
+            before = Snapshot();
+        }
+        DeliverResult d = [&] {
+            Prof p("deliver");
+            return Deliver(node, led, b, o);
+        }();
         Report(d.violations, action + ":" + b->meta.tag);
         AfterAction(action + ":" + b->meta.tag, d.events, expect_unchanged, &before.tip, &before.utxo);
+        if (expect_unchanged && !b->have_data && !d.index_after.have_data) {
+            // refused before storage: the block files must not have grown
+            const uint64_t usage = node.BlockFilesUsage();
+            Obs("unchanged_storage_checks");
+            if (usage != before.usage) {
+                Violations v;
+                v.push_back({"unchanged-violated", "a block refused before storage changed the block file usage",
+                             vh::J().str("tag", b->meta.tag).u("before", before.usage).u("after", usage).done()});
+                Report(v, action + ":" + b->meta.tag);
+            }
+        }
         Obs("deliveries");
         return d;
     }
@@ -308,6 +349,39 @@ struct Hist {
         }
     }
 
+    //! BIP34 not active: first block of a side branch whose coinbase is byte-identical to the coinbase of a block of the
+    //! competing (active) branch, so the same outpoints are created on both branches (possibly at another height)
+    RefBlock* TwinCoinbase(RefBlock* fork, RefBlock* tip)
+    {
+        const int H = fork->height + 1;
+        std::vector<const RefBlock*> cand;
+        for (const RefBlock* x = tip; x && x->height > fork->height; x = x->parent) {
+            if (x->height > fork->height + 3) continue;
+            const CTransaction& cb = *x->block->vtx[0];
+            if (cb.HasWitness()) continue;
+            CAmount total = 0;
+            bool commit = false;
+            for (const auto& o : cb.vout) {
+                total += o.nValue;
+                const CScript& s = o.scriptPubKey;
+                if (s.size() >= 38 && s[0] == OP_RETURN && s[1] == 0x24) commit = true;
+            }
+            if (commit || total > led.Subsidy(H)) continue;
+            cand.push_back(x);
+        }
+        if (cand.empty()) return nullptr;
+        const RefBlock* x = cand[rng.below(cand.size())];
+        const CTransaction& xcb = *x->block->vtx[0];
+        auto blk = BuildOn(fork, {}, [&](BlockSpec& s) {
+            s.cb.raw_script_sig = xcb.vin[0].scriptSig;
+            s.cb.raw_outputs = xcb.vout;
+        });
+        if (blk->vtx[0]->GetHash() != xcb.GetHash()) return nullptr;
+        Obs("twin_coinbase_branches");
+        if (x->height != H) Obs("twin_coinbase_other_height");
+        return Register(blk, "twin-coinbase", "");
+    }
+
     //! side branch from `depth` blocks below the tip, `len` blocks long, various delivery orders
     void Fork(int depth, int len)
     {
@@ -318,9 +392,21 @@ struct Hist {
         std::vector<RefBlock*> branch;
         RefBlock* p = fork;
         for (int i = 0; i < len; ++i) {
-            RefBlock* b = MakeValid(p, 4, "branch");
+            RefBlock* b = nullptr;
+            if (i == 0 && depth >= 1 && !led.Bip34ActiveFor(fork->height + 3) && rng.coin()) b = TwinCoinbase(fork, tip);
+            if (!b) b = MakeValid(p, 4, "branch");
             branch.push_back(b);
             p = b;
+            // spends of outputs that existed before the fork point (their state differs between the two branches only through these blocks)
+            for (size_t t = 1; t < b->block->vtx.size(); ++t) {
+                for (const auto& in : b->block->vtx[t]->vin) {
+                    const RefUtxo& fu = led.Utxo(fork);
+                    if (fu.count(in.prevout)) {
+                        Obs("prefork_spends");
+                        if (depth >= 2) Obs("prefork_spends_depth_ge2");
+                    }
+                }
+            }
         }
         const int mode = (int)rng.below(4);
         if (mode == 0) {
@@ -482,6 +568,1043 @@ struct Hist {
         AfterAction("precious", evs);
     }
 
+    // ================================================================== adversarial blocks
+    // Every adversarial block breaks exactly ONE rule by the smallest amount; `reason` is what the generator intends.
+    // The ledger evaluates the block with its own rules; if it does not arrive at the same single fault the generator
+    // or the model is wrong: that is a harness failure (exception), never a violation.
+    RefBlock* Register(const std::shared_ptr<CBlock>& blk, const std::string& tag, const std::string& reason, const std::set<size_t>& bad_scripts = {})
+    {
+        BlockMeta m;
+        m.tag = tag;
+        m.bad_script_txs = bad_scripts;
+        RefBlock* rb = [&] {
+            Prof p("led_add");
+            return led.Add(blk, m);
+        }();
+        if (!rb) throw std::runtime_error("adversarial block has no parent in the ledger: " + tag);
+        if (!led.ChainValid(rb->parent)) return rb;
+        std::string got;
+        for (const auto& f : rb->faults) got += f.reason + "@" + StageName(f.stage) + " ";
+        if (reason.empty()) {
+            if (!rb->SelfValid()) throw std::runtime_error("gen/model disagree: '" + tag + "' intended valid, model says " + got);
+        } else {
+            bool ok = false;
+            for (const auto& f : rb->faults) ok = ok || f.reason == reason;
+            if (!ok) throw std::runtime_error("gen/model disagree: '" + tag + "' intended " + reason + ", model says " + (got.empty() ? "valid" : got));
+        }
+        return rb;
+    }
+
+    //! deliver a tagged block, record expected vs observed, count event classes
+    void SendTagged(RefBlock* rb, const std::string& ev_class, bool on_tip, DeliverOpts o = {})
+    {
+        const bool invalid = !rb->faults.empty();
+        const uint256 tip_before = node.TipHash();
+        std::string expect = "VALID";
+        if (invalid) {
+            expect.clear();
+            for (const auto& f : rb->faults) expect += (expect.empty() ? "" : "|") + ResultName(f.result) + ":" + f.reason + "@" + StageName(f.stage);
+        }
+        if (on_tip && rb->parent && rb->parent->hash == tip_before && rng.chance(1, 3) && (int64_t)rb->block->nTime <= node.Time() + 7200) {
+            // the same block through TestBlockValidity first: same answer as the model, and no side effect at all
+            SyncClock();
+            const Snap s0 = Snapshot();
+            const bool known0 = node.Index(rb->hash).exists;
+            Verdict tv = node.TestValidity(*rb->block);
+            bool ok = invalid ? false : tv.valid;
+            if (invalid && !tv.valid) {
+                for (const auto& f : rb->faults) ok = ok || (f.result == tv.result && (f.reason == tv.reason || (f.reason == "block-script-verify-flag-failed" && tv.reason.rfind(f.reason, 0) == 0)));
+            }
+            Violations vs;
+            if (!ok) {
+                vs.push_back({invalid ? (tv.valid ? "accepted-invalid-block" : "reject-reason-unexpected") : "rejected-valid-block", "TestBlockValidity disagrees with the model",
+                              vh::J().str("tag", rb->meta.tag).str("block", rb->hash.ToString()).str("expected", expect).str("observed", tv.ResultName() + ":" + tv.reason).str("debug", tv.debug).done()});
+            }
+            const Snap s1 = Snapshot();
+            if (s0.tip != s1.tip || s0.utxo != s1.utxo || s0.usage != s1.usage || node.Index(rb->hash).exists != known0) {
+                vs.push_back({"unchanged-violated", "TestBlockValidity had a side effect (tip / UTXO set / block files / block index)", vh::J().str("tag", rb->meta.tag).done()});
+            }
+            Report(vs, "tbv:" + rb->meta.tag);
+            Obs("tbv_checks");
+            if (invalid) Obs("tbv_rejections");
+        }
+        DeliverResult d = Send(rb, o, "adv", /*expect_unchanged=*/invalid);
+        std::optional<Verdict> v = node.Verdicts().Last(rb->hash);
+        std::string observed = v ? v->ResultName() + (v->valid ? "" : ":" + v->reason) : "none";
+        const bool tip_moved = node.TipHash() != tip_before;
+        bool as_expected;
+        if (invalid) {
+            as_expected = v && !v->valid && !tip_moved && node.TipHash() != rb->hash;
+        } else {
+            as_expected = !on_tip || node.TipHash() == rb->hash;
+        }
+        if (as_expected) {
+            Obs(ev_class);
+            if (invalid) Obs("tagged_rejected"); else Obs("tagged_accepted");
+        } else if (!invalid && on_tip) {
+            // a valid neighbour built on the tip must become the tip (it has strictly more work)
+            Violations vs;
+            vs.push_back({"valid-neighbour-not-accepted", "an at-the-limit valid block built on the active tip did not become the tip",
+                          vh::J().str("tag", rb->meta.tag).str("block", rb->hash.ToString()).str("observed", observed).str("index", d.index_after.Str()).done()});
+            Report(vs, "adv:" + rb->meta.tag);
+        }
+        sig.insert(rb->meta.tag);
+        if (tagged.size() < 60) {
+            tagged.push_back(vh::J().str("tag", rb->meta.tag).i("h", rb->height).str("expect", expect).str("observed", observed).str("index", d.index_after.Str()).b("pnb", d.blk.ret).b("tip_moved", tip_moved).done());
+        }
+    }
+
+    //! one tx spending `ins` to `outs`
+    CTransactionRef Tx(const std::vector<Spendable>& ins, const std::vector<CTxOut>& outs, uint32_t lock = 0, const std::vector<uint32_t>& seqs = {}, int32_t ver = 2)
+    {
+        return MakeTransactionRef(MakeTx(keys, ins, outs, lock, seqs, ver));
+    }
+    std::optional<Spendable> PickCoin(const RefBlock* parent, std::set<COutPoint>& used, CAmount min_value = 1000)
+    {
+        std::vector<Spendable> av = Coins(parent, used);
+        std::vector<Spendable> ok;
+        for (auto& s : av) {
+            if (s.out.nValue >= min_value) ok.push_back(s);
+        }
+        if (ok.empty()) return std::nullopt;
+        Spendable s = ok[rng.below(ok.size())];
+        used.insert(s.op);
+        return s;
+    }
+    std::shared_ptr<CBlock> BuildOn(const RefBlock* parent, const std::vector<CTransactionRef>& txs, const std::function<void(BlockSpec&)>& tweak = {})
+    {
+        BlockSpec s = Spec(parent);
+        if (tweak) tweak(s);
+        return bb.Build(parent, txs, s);
+    }
+
+    // ------------------------------------------------------------------ class value (C01)
+    void AdvValue()
+    {
+        RefBlock* tip = Tip();
+        if (!tip || !led.ChainValid(tip)) return;
+        const int H = tip->height + 1;
+        std::set<COutPoint> used;
+        std::vector<CTransactionRef> txs = ValidTxs(tip, 3, used);
+        const int kind = (int)rng.below(8);
+        switch (kind) {
+        case 0: case 1: {
+            // coinbase pays subsidy + fees + 1 ; neighbour pays exactly subsidy + fees
+            if (txs.empty()) {
+                if (auto c = PickCoin(tip, used, 50000)) txs.push_back(Tx({*c}, {CTxOut(c->out.nValue - 1 - (CAmount)rng.below(30000), RandSpk())}));
+            }
+            const CAmount fees = std::max<CAmount>(0, bb.FeesOf(tip, txs));
+            const CAmount limit = led.Subsidy(H) + fees;
+            auto bad = BuildOn(tip, txs, [&](BlockSpec& s) { s.cb.value = limit + 1; });
+            SendTagged(Register(bad, "cb+1", "bad-cb-amount"), "bad_cb_amount_rej", true);
+            auto ok = BuildOn(tip, txs, [&](BlockSpec& s) { s.cb.value = limit; });
+            RefBlock* rb = Register(ok, "cb-at-limit", "");
+            SendTagged(rb, "at_limit_cb_acc", true);
+            if (fees > 0) Obs("fee_blocks_accepted");
+            break;
+        }
+        case 2: case 3: case 4: {
+            // output value range: -1, MAX_MONEY+1, INT64_MAX, two outputs summing over MAX_MONEY; in a tx or in the coinbase
+            auto c = PickCoin(tip, used, 5000);
+            const int sub = (int)rng.below(4);
+            std::vector<CTxOut> bad_outs;
+            std::string tag, reason;
+            if (sub == 0) { bad_outs = {CTxOut(-1, RandSpk())}; tag = "vout-1"; reason = "bad-txns-vout-negative"; }
+            else if (sub == 1) { bad_outs = {CTxOut(MAXM + 1, RandSpk())}; tag = "vout-maxmoney+1"; reason = "bad-txns-vout-toolarge"; }
+            else if (sub == 2) { bad_outs = {CTxOut(INT64_MAX, RandSpk())}; tag = "vout-int64max"; reason = "bad-txns-vout-toolarge"; }
+            else { bad_outs = {CTxOut(MAXM, RandSpk()), CTxOut(1, RandSpk())}; tag = "vout-sum-over"; reason = "bad-txns-txouttotal-toolarge"; }
+            const bool in_cb = !c || rng.chance(1, 3);
+            std::shared_ptr<CBlock> bad;
+            if (in_cb) {
+                bad = BuildOn(tip, txs, [&](BlockSpec& s) {
+                    s.cb.value = 0;
+                    s.cb.extra_outputs = bad_outs;
+                });
+                tag += "-cb";
+            } else {
+                std::vector<CTxOut> outs = bad_outs;
+                // position of the offending output varies
+                if (rng.coin()) outs.insert(outs.begin(), CTxOut(1000, RandSpk()));
+                std::vector<CTransactionRef> t2 = txs;
+                t2.insert(t2.begin() + rng.below(t2.size() + 1), Tx({*c}, outs));
+                bad = BuildOn(tip, t2, [&](BlockSpec& s) { s.cb.value = led.Subsidy(H); });
+            }
+            SendTagged(Register(bad, tag, reason), "vout_range_rej", true);
+            // neighbour: exactly MAX_MONEY cannot be funded on regtest; the valid neighbour is the plain block
+            auto ok = BuildOn(tip, txs);
+            SendTagged(Register(ok, "value-neighbour", ""), "value_neighbour_acc", true);
+            break;
+        }
+        case 5: case 6: {
+            // a tx creating 1 sat more than it spends ; neighbour spends exactly what it creates (fee 0)
+            auto c = PickCoin(tip, used, 5000);
+            if (!c) return;
+            const CAmount in = c->out.nValue;
+            std::vector<CTransactionRef> t_bad = txs, t_ok = txs;
+            const CAmount a = 1 + (CAmount)rng.below((uint64_t)in - 1);
+            t_bad.push_back(Tx({*c}, {CTxOut(a, RandSpk()), CTxOut(in - a + 1, RandSpk())}));
+            t_ok.push_back(Tx({*c}, {CTxOut(a, RandSpk()), CTxOut(in - a, RandSpk())}));
+            auto bad = BuildOn(tip, t_bad, [&](BlockSpec& s) { s.cb.value = led.Subsidy(H); });
+            SendTagged(Register(bad, "in-belowout", "bad-txns-in-belowout"), "in_belowout_rej", true);
+            auto ok = BuildOn(tip, t_ok);
+            SendTagged(Register(ok, "in-equals-out", ""), "in_equals_out_acc", true);
+            break;
+        }
+        default: {
+            // under-paying coinbase is allowed
+            auto ok = BuildOn(tip, txs, [&](BlockSpec& s) { s.cb.value = (CAmount)rng.below((uint64_t)led.Subsidy(H) + 1); });
+            SendTagged(Register(ok, "cb-underpay", ""), "cb_underpay_acc", true);
+            break;
+        }
+        }
+    }
+
+    // ------------------------------------------------------------------ class spend (C02)
+    void AdvSpend()
+    {
+        RefBlock* tip = Tip();
+        if (!tip || !led.ChainValid(tip)) return;
+        const int H = tip->height + 1;
+        std::set<COutPoint> used;
+        std::vector<CTransactionRef> txs = ValidTxs(tip, 2, used);
+        const bool bip34_late = led.Params().h_bip34 > H + 50;
+        int kind = (int)rng.below(bip34_late ? 10 : 8);
+        // between creating and (mis)spending: sometimes push the coins through the cache layers
+        auto maybe_flush = [&] {
+            if (rng.chance(1, 3)) {
+                node.Flush(rng.coin() ? FlushStateMode::FORCE_FLUSH : FlushStateMode::FORCE_SYNC);
+                Obs("flushes");
+                Obs("flush_before_spend");
+            }
+        };
+        switch (kind) {
+        case 0: {
+            // the same outpoint twice inside one tx (CVE-2018-17144 shape), at random positions
+            auto a = PickCoin(tip, used, 5000);
+            if (!a) return;
+            std::vector<Spendable> ins{*a};
+            if (auto b = PickCoin(tip, used)) ins.insert(ins.begin() + rng.below(2), *b);
+            ins.insert(ins.begin() + rng.below(ins.size() + 1), *a);
+            CAmount in = 0;
+            std::set<COutPoint> uniq;
+            for (auto& s : ins) {
+                if (uniq.insert(s.op).second) in += s.out.nValue;
+            }
+            std::vector<CTransactionRef> t2 = txs;
+            t2.insert(t2.begin() + rng.below(t2.size() + 1), Tx(ins, {CTxOut(in - 1000, RandSpk())}));
+            maybe_flush();
+            SendTagged(Register(BuildOn(tip, t2, [&](BlockSpec& s) { s.cb.value = led.Subsidy(H); }), "dup-input", "bad-txns-inputs-duplicate"), "dup_input_rej", true);
+            break;
+        }
+        case 1: {
+            // two txs of one block spend the same outpoint ; neighbour holds only the first
+            auto a = PickCoin(tip, used, 5000);
+            if (!a) return;
+            CTransactionRef t1 = Tx({*a}, {CTxOut(a->out.nValue - 500, RandSpk())});
+            CTransactionRef t2 = Tx({*a}, {CTxOut(a->out.nValue - 700, RandSpk())});
+            std::vector<CTransactionRef> both = txs, one = txs;
+            both.push_back(t1);
+            both.push_back(t2);
+            one.push_back(t1);
+            maybe_flush();
+            SendTagged(Register(BuildOn(tip, both, [&](BlockSpec& s) { s.cb.value = led.Subsidy(H); }), "inblock-double", "bad-txns-inputs-missingorspent"), "inblock_double_rej", true);
+            SendTagged(Register(BuildOn(tip, one), "inblock-single", ""), "inblock_single_acc", true);
+            break;
+        }
+        case 2: {
+            // an outpoint that never existed
+            Spendable s;
+            {
+                auto rb32 = rng.bytes(32);
+                s.op = COutPoint(Txid::FromUint256(uint256{std::span<const unsigned char>(rb32)}), (uint32_t)rng.below(3));
+            }
+            s.out = CTxOut(12345, CScript() << OP_TRUE);
+            led.AddProbeOutpoint(s.op);
+            std::vector<CTransactionRef> t2 = txs;
+            t2.push_back(Tx({s}, {CTxOut(12000, RandSpk())}));
+            SendTagged(Register(BuildOn(tip, t2, [&](BlockSpec& sp) { sp.cb.value = led.Subsidy(H); }), "never-created", "bad-txns-inputs-missingorspent"), "missing_rej", true);
+            break;
+        }
+        case 3: {
+            // already spent: block A spends c (accepted); block B on A spends c again
+            auto a = PickCoin(tip, used, 5000);
+            if (!a) return;
+            std::vector<CTransactionRef> ta = txs;
+            ta.push_back(Tx({*a}, {CTxOut(a->out.nValue - 500, RandSpk())}));
+            RefBlock* A = Register(BuildOn(tip, ta), "spend-once", "");
+            SendTagged(A, "spend_once_acc", true);
+            if (node.TipHash() != A->hash) return;
+            maybe_flush();
+            SendTagged(Register(BuildOn(A, {Tx({*a}, {CTxOut(a->out.nValue - 900, RandSpk())})}, [&](BlockSpec& s) { s.cb.value = led.Subsidy(H + 1); }), "already-spent", "bad-txns-inputs-missingorspent"), "missing_rej", true);
+            break;
+        }
+        case 4: {
+            // an unspendable (OP_RETURN) output: created in A with a value, (mis)spent in B
+            auto a = PickCoin(tip, used, 5000);
+            if (!a) return;
+            const CScript opret = keys.Spk(OutType::OP_RETURN_, rng.below(200));
+            CTransactionRef t = Tx({*a}, {CTxOut(2000, opret), CTxOut(a->out.nValue - 3000, RandSpk())});
+            std::vector<CTransactionRef> ta = txs;
+            ta.push_back(t);
+            RefBlock* A = Register(BuildOn(tip, ta), "burn", "");
+            SendTagged(A, "burn_acc", true);
+            if (node.TipHash() != A->hash) return;
+            maybe_flush();
+            Spendable s;
+            s.op = COutPoint(t->GetHash(), 0);
+            s.out = t->vout[0];
+            SendTagged(Register(BuildOn(A, {Tx({s}, {CTxOut(1500, RandSpk())})}, [&](BlockSpec& sp) { sp.cb.value = led.Subsidy(H + 1); }), "spend-unspendable", "bad-txns-inputs-missingorspent"), "missing_rej", true);
+            break;
+        }
+        case 5: {
+            // child placed before its parent in the same block ; neighbour in the right order
+            auto a = PickCoin(tip, used, 5000);
+            if (!a) return;
+            const CScript mid = keys.Spk(OutType::P2WPKH, rng.below(keys.Size()));
+            spk_info[mid] = {OutType::P2WPKH, 0};
+            CTransactionRef parent = Tx({*a}, {CTxOut(a->out.nValue - 400, mid)});
+            Spendable s;
+            s.op = COutPoint(parent->GetHash(), 0);
+            s.out = parent->vout[0];
+            CTransactionRef child = Tx({s}, {CTxOut(s.out.nValue - 400, RandSpk())});
+            std::vector<CTransactionRef> wrong = txs, right = txs;
+            wrong.push_back(child);
+            wrong.push_back(parent);
+            right.push_back(parent);
+            right.push_back(child);
+            SendTagged(Register(BuildOn(tip, wrong, [&](BlockSpec& sp) { sp.cb.value = led.Subsidy(H); }), "child-before-parent", "bad-txns-inputs-missingorspent"), "later_in_block_rej", true);
+            SendTagged(Register(BuildOn(tip, right), "parent-before-child", ""), "create_and_spend_acc", true);
+            break;
+        }
+        case 6: case 7: {
+            // the same transaction again while its outputs are still unspent (BIP30 is looked at before the inputs)
+            auto a = PickCoin(tip, used, 5000);
+            if (!a) return;
+            CTransactionRef t = Tx({*a}, {CTxOut(a->out.nValue - 600, RandSpk())});
+            RefBlock* A = Register(BuildOn(tip, {t}), "tx-once", "");
+            SendTagged(A, "spend_once_acc", true);
+            if (node.TipHash() != A->hash) return;
+            maybe_flush();
+            SendTagged(Register(BuildOn(A, {t}, [&](BlockSpec& sp) { sp.cb.value = led.Subsidy(H + 1); }), "same-tx-again", "bad-txns-BIP30"), "bip30_rej", true);
+            break;
+        }
+        default: {
+            // BIP34 not active yet: a coinbase identical to an ancestor's coinbase
+            //  - while the ancestor's outputs are unspent: BIP30 violation
+            //  - after all of them were spent: allowed (the outputs are created again)
+            const RefUtxo& u = led.Utxo(tip);
+            std::vector<const RefBlock*> unspent, respent;
+            for (const RefBlock* x = tip; x && x->height > 0; x = x->parent) {
+                const CTransaction& cb = *x->block->vtx[0];
+                if (cb.HasWitness()) continue;
+                bool commit = false, any_unspent = false, any_spendable = false;
+                CAmount total = 0;
+                for (size_t o = 0; o < cb.vout.size(); ++o) {
+                    const CScript& s = cb.vout[o].scriptPubKey;
+                    total += cb.vout[o].nValue;
+                    if (s.size() >= 38 && s[0] == OP_RETURN && s[1] == 0x24) commit = true;
+                    if (!RefLedger::IsUnspendable(s)) any_spendable = true;
+                    if (u.count(COutPoint(cb.GetHash(), o))) any_unspent = true;
+                }
+                if (commit || !any_spendable || total > led.Subsidy(H)) continue;
+                (any_unspent ? unspent : respent).push_back(x);
+            }
+            const bool want_ok = !respent.empty() && rng.coin();
+            const std::vector<const RefBlock*>& pool = want_ok ? respent : unspent;
+            if (pool.empty()) return;
+            const RefBlock* x = pool[rng.below(pool.size())];
+            const CTransaction& xcb = *x->block->vtx[0];
+            auto blk = BuildOn(tip, {}, [&](BlockSpec& s) {
+                s.cb.raw_script_sig = xcb.vin[0].scriptSig;
+                s.cb.raw_outputs = xcb.vout;
+            });
+            if (blk->vtx[0]->GetHash() != xcb.GetHash()) throw std::runtime_error("duplicate coinbase does not reproduce the txid");
+            maybe_flush();
+            if (want_ok) SendTagged(Register(blk, "dup-coinbase-respent", ""), "bip30_respent_acc", true);
+            else SendTagged(Register(blk, "dup-coinbase", "bad-txns-BIP30"), "bip30_rej", true);
+            Obs("dup_coinbase_blocks");
+            break;
+        }
+        }
+    }
+
+    // ------------------------------------------------------------------ class timelock (C05)
+    void AdvTimelock()
+    {
+        RefBlock* tip = Tip();
+        if (!tip || !led.ChainValid(tip)) return;
+        const int H = tip->height + 1;
+        const bool csv = led.CsvActiveFor(H);
+        std::set<COutPoint> used;
+        std::vector<CTransactionRef> txs = ValidTxs(tip, 2, used);
+        const int kind = (int)rng.below(10);
+        auto pair = [&](CTransactionRef bad_tx, const std::string& bad_tag, const std::string& reason, const std::string& ev_rej, CTransactionRef ok_tx, const std::string& ok_tag, const std::string& ev_acc, std::optional<uint32_t> time = {}) {
+            if (bad_tx) {
+                std::vector<CTransactionRef> t = txs;
+                t.insert(t.begin() + rng.below(t.size() + 1), bad_tx);
+                auto blk = BuildOn(tip, t, [&](BlockSpec& s) {
+                    s.cb.value = led.Subsidy(H);
+                    if (time) s.time = *time;
+                });
+                SendTagged(Register(blk, bad_tag, reason), ev_rej, true);
+            }
+            if (ok_tx) {
+                std::vector<CTransactionRef> t = txs;
+                t.insert(t.begin() + rng.below(t.size() + 1), ok_tx);
+                auto blk = BuildOn(tip, t, [&](BlockSpec& s) {
+                    if (time) s.time = *time;
+                });
+                SendTagged(Register(blk, ok_tag, ""), ev_acc, true);
+            }
+        };
+        switch (kind) {
+        case 0: case 1: {
+            // nLockTime by height: H is not yet final for a block at height H, H-1 is
+            auto c = PickCoin(tip, used, 5000);
+            if (!c) return;
+            std::vector<CTxOut> outs{CTxOut(c->out.nValue - 500, RandSpk())};
+            if (rng.chance(1, 4)) {
+                // every input final: nLockTime is ignored whatever it says
+                pair(nullptr, "", "", "", Tx({*c}, outs, (uint32_t)(H + rng.below(1000)), {0xffffffff}), "locktime-ignored-all-final", "locktime_escape_acc");
+            } else {
+                pair(Tx({*c}, outs, (uint32_t)H, {0xfffffffe}), "locktime-height-at", "bad-txns-nonfinal", "nonfinal_rej",
+                     Tx({*c}, outs, (uint32_t)(H - 1), {0xfffffffe}), "locktime-height-one-below", "locktime_height_acc");
+            }
+            break;
+        }
+        case 2: case 3: {
+            // nLockTime by time: compared with the previous block's median time past once CSV is active, else with the block's own time
+            auto c = PickCoin(tip, used, 5000);
+            if (!c) return;
+            std::vector<CTxOut> outs{CTxOut(c->out.nValue - 500, RandSpk())};
+            const uint32_t t = NextTime(tip);
+            const int64_t cutoff = csv ? tip->mtp : (int64_t)t;
+            pair(Tx({*c}, outs, (uint32_t)cutoff, {0xfffffffe}), csv ? "locktime-mtp-at" : "locktime-blocktime-at", "bad-txns-nonfinal", "nonfinal_rej",
+                 Tx({*c}, outs, (uint32_t)(cutoff - 1), {0xfffffffe}), csv ? "locktime-mtp-one-below" : "locktime-blocktime-one-below", "locktime_time_acc", t);
+            if (!csv) Obs("locktime_pre_bip113");
+            break;
+        }
+        case 4: case 5: {
+            // BIP68 by height: relative lock of exactly the coin's age is satisfied, age+1 is not
+            auto c = PickCoin(tip, used, 5000);
+            if (!c) return;
+            const int age = H - c->height;
+            if (age < 1 || age + 1 > 0xffff) return;
+            std::vector<CTxOut> outs{CTxOut(c->out.nValue - 500, RandSpk())};
+            const int flavour = (int)rng.below(5);
+            if (flavour == 0) {
+                // version 1 is exempt ; the disable flag switches the rule off
+                pair(nullptr, "", "", "", Tx({*c}, outs, 0, {(uint32_t)(age + 1 + rng.below(1000))}, 1), "bip68-version1-exempt", "bip68_exempt_acc");
+            } else if (flavour == 1) {
+                pair(nullptr, "", "", "", Tx({*c}, outs, 0, {(uint32_t)((1u << 31) | 0xffff)}), "bip68-disable-flag", "bip68_exempt_acc");
+            } else if (csv) {
+                // bits outside the mask and type flag are ignored
+                const uint32_t junk = rng.coin() ? 0 : (uint32_t)(rng.below(32) << 16) & ~(1u << 22);
+                pair(Tx({*c}, outs, 0, {(uint32_t)(age + 1) | junk}), "bip68-height-one-short", "bad-txns-nonfinal", "bip68_height_rej",
+                     Tx({*c}, outs, 0, {(uint32_t)age | junk}), "bip68-height-at", "bip68_height_acc");
+                Obs("bip68_height_pair");
+            } else {
+                pair(nullptr, "", "", "", Tx({*c}, outs, 0, {(uint32_t)(age + 1)}), "bip68-before-activation", "bip68_preactivation_acc");
+            }
+            break;
+        }
+        case 6: case 7: {
+            // BIP68 by time: units of 512 s between the MTP of the block before the coin's block and the MTP of the previous block
+            auto c = PickCoin(tip, used, 5000);
+            if (!c || !csv) return;
+            const RefBlock* ref = led.Ancestor(tip, std::max(c->height - 1, 0));
+            if (!ref) return;
+            const int64_t diff = tip->mtp - ref->mtp;
+            if (diff < 0) return;
+            const int64_t v = diff / 512;
+            if (v + 1 > 0xffff) return;
+            std::vector<CTxOut> outs{CTxOut(c->out.nValue - 500, RandSpk())};
+            pair(Tx({*c}, outs, 0, {(uint32_t)((1u << 22) | (v + 1))}), "bip68-time-one-short", "bad-txns-nonfinal", "bip68_time_rej",
+                 Tx({*c}, outs, 0, {(uint32_t)((1u << 22) | v)}), "bip68-time-at", "bip68_time_acc");
+            Obs("bip68_time_pair");
+            break;
+        }
+        default: {
+            // coinbase maturity: 100 confirmations exactly
+            static const int depths[] = {98, 99, 99, 100, 100, 101};
+            const int d = depths[rng.below(6)];
+            std::vector<Spendable> av = Coins(tip, used, /*allow_immature=*/true);
+            std::vector<Spendable> cand;
+            for (auto& s : av) {
+                if (s.coinbase && H - s.height == d && s.out.nValue > 5000) cand.push_back(s);
+            }
+            if (cand.empty()) return;
+            Spendable s = cand[rng.below(cand.size())];
+            std::vector<CTxOut> outs{CTxOut(s.out.nValue - 500, RandSpk())};
+            if (d < 100) pair(Tx({s}, outs), "coinbase-depth-" + std::to_string(d), "bad-txns-premature-spend-of-coinbase", d == 99 ? "maturity_99_rej" : "maturity_98_rej", nullptr, "", "");
+            else pair(nullptr, "", "", "", Tx({s}, outs), "coinbase-depth-" + std::to_string(d), d == 100 ? "maturity_100_acc" : "maturity_101_acc");
+            break;
+        }
+        }
+    }
+
+    // ------------------------------------------------------------------ class limits (C06)
+    //! OP_0 OP_IF <kb x CHECKMULTISIG> <k16 x (OP_16 CHECKMULTISIG)> <j x CHECKSIG> OP_ENDIF [OP_1]
+    //! never executes a signature check (dead branch) but every operation is counted: accurately (inside P2SH /
+    //! witness scripts) 20*kb + 16*k16 + j, inaccurately (legacy) 20*(kb+k16) + j. At most 201 non-push opcodes.
+    static CScript DeadSigops(size_t kb, size_t k16, size_t j, bool leave_true, size_t* accurate, size_t* legacy)
+    {
+        CScript s;
+        s << OP_0 << OP_IF;
+        for (size_t i = 0; i < kb; ++i) s << OP_CHECKMULTISIG;
+        for (size_t i = 0; i < k16; ++i) s << OP_16 << OP_CHECKMULTISIG;
+        for (size_t i = 0; i < j; ++i) s << OP_CHECKSIG;
+        s << OP_ENDIF;
+        if (leave_true) s << OP_1;
+        if (accurate) *accurate = 20 * kb + 16 * k16 + j;
+        if (legacy) *legacy = 20 * (kb + k16) + j;
+        return s;
+    }
+    static CScript BareSigops(size_t n)
+    {
+        CScript s;
+        for (size_t i = 0; i < n; ++i) s << OP_CHECKSIG;
+        return s;
+    }
+
+    void AdvSigops()
+    {
+        RefBlock* tip = Tip();
+        if (!tip || !led.ChainValid(tip)) return;
+        const int H = tip->height + 1;
+        std::set<COutPoint> used;
+        auto fund = PickCoin(tip, used, 200000);
+        if (!fund) return;
+        // placements: 0 outputs (legacy x4), 1 scriptSig (legacy x4), 2 P2SH redeem script (accurate x4, counted when connecting),
+        //             3 P2WSH witness script (accurate x1), 4 P2SH-wrapped P2WSH (accurate x1)
+        const int placement = (int)rng.below(5);
+        size_t redeem_acc = 0, wit_acc = 0, sig_legacy = 0;
+        const CScript redeem = DeadSigops(rng.below(8), 60 + rng.below(100), rng.below(20), true, &redeem_acc, nullptr);
+        const CScript wscript = DeadSigops(rng.below(8), 60 + rng.below(100), rng.below(20), true, &wit_acc, nullptr);
+        const CScript sigscript = DeadSigops(60 + rng.below(100), rng.below(8), rng.below(20), false, nullptr, &sig_legacy);
+        uint256 wsh;
+        CSHA256().Write(wscript.data(), wscript.size()).Finalize(wsh.begin());
+        const CScript p2wsh = CScript() << OP_0 << std::vector<unsigned char>(wsh.begin(), wsh.end());
+        const CScript p2sh_redeem = GetScriptForDestination(ScriptHash(redeem));
+        const CScript p2sh_wsh = GetScriptForDestination(ScriptHash(p2wsh));
+        const CScript anyone = CScript() << OP_TRUE;
+        const CAmount each = 10000;
+        // step 1: block A creates the outputs the sigop-carrying inputs spend
+        std::vector<CTxOut> outs{CTxOut(each, anyone), CTxOut(each, p2sh_redeem), CTxOut(each, p2wsh), CTxOut(each, p2sh_wsh), CTxOut(fund->out.nValue - 5 * each, RandSpk())};
+        CTransactionRef setup = Tx({*fund}, outs);
+        RefBlock* A = Register(BuildOn(tip, {setup}), "sigops-setup", "");
+        SendTagged(A, "sigops_setup_acc", true);
+        if (node.TipHash() != A->hash) return;
+        // step 2: block at the limit and block one step over
+        int64_t expected_cost = 0;
+        auto build = [&](bool over) -> std::shared_ptr<CBlock> {
+            CMutableTransaction m;
+            m.version = 2;
+            int64_t cost = 0;
+            auto spend = [&](uint32_t n) { m.vin.emplace_back(COutPoint(setup->GetHash(), n)); return m.vin.size() - 1; };
+            int64_t step = 4;
+            switch (placement) {
+            case 0: last_place = "outputs"; break;
+            case 1: {
+                last_place = "scriptsig";
+                size_t i = spend(0);
+                m.vin[i].scriptSig = sigscript;
+                cost += 4 * (int64_t)sig_legacy;
+                break;
+            }
+            case 2: {
+                last_place = "p2sh";
+                size_t i = spend(1);
+                m.vin[i].scriptSig = CScript() << std::vector<unsigned char>(redeem.begin(), redeem.end());
+                cost += 4 * (int64_t)redeem_acc;
+                break;
+            }
+            case 3: {
+                last_place = "witness";
+                size_t i = spend(2);
+                m.vin[i].scriptWitness.stack = {std::vector<unsigned char>(wscript.begin(), wscript.end())};
+                cost += (int64_t)wit_acc;
+                step = 1;
+                break;
+            }
+            default: {
+                last_place = "p2sh_witness";
+                size_t i = spend(3);
+                m.vin[i].scriptSig = CScript() << std::vector<unsigned char>(p2wsh.begin(), p2wsh.end());
+                m.vin[i].scriptWitness.stack = {std::vector<unsigned char>(wscript.begin(), wscript.end())};
+                cost += (int64_t)wit_acc;
+                step = 1;
+                break;
+            }
+            }
+            if (m.vin.empty()) spend(0); // placement "outputs" still needs an input
+            // decoy that must NOT be counted: CHECKSIG bytes inside a push
+            m.vout.emplace_back(0, CScript() << OP_RETURN << std::vector<unsigned char>(40, 0xac));
+            // counted although it follows OP_RETURN (counting is purely syntactic): 7 operations
+            {
+                CScript after_ret = CScript() << OP_RETURN;
+                for (int i = 0; i < 7; ++i) after_ret << OP_CHECKSIG;
+                m.vout.emplace_back(0, after_ret);
+            }
+            cost += 4 * 7;
+            // the rest comes from bare OP_CHECKSIG outputs (legacy, 4 each). With a witness-side placement the total
+            // can only take values cost + 4k: "at the limit" is then the largest such total <= 80000 and "over" the
+            // smallest one > 80000.
+            const int64_t limit = 80000;
+            int64_t rem = (over ? limit + step : limit) - cost;
+            const int64_t r4 = ((rem % 4) + 4) % 4;
+            if (!over) rem -= r4;
+            else rem += (4 - r4) % 4;
+            int64_t k = rem / 4;
+            cost += 4 * k;
+            while (k > 0) {
+                const int64_t chunk = std::min<int64_t>(k, 9000);
+                m.vout.emplace_back(0, BareSigops((size_t)chunk));
+                k -= chunk;
+            }
+            m.vout.emplace_back(each - 1000, anyone);
+            expected_cost = cost;
+            auto blk = BuildOn(A, {MakeTransactionRef(m)}, [&](BlockSpec& s) {
+                // outputs of the block that are not part of the arithmetic above must not carry signature operations
+                s.cb.spk = anyone;
+                s.cb.split = 1;
+                if (over) s.cb.value = led.Subsidy(H + 1);
+            });
+            sig.insert("sigops-" + last_place);
+            return blk;
+        };
+        auto over = build(true);
+        const int64_t over_cost = expected_cost;
+        RefBlock* rb_over = Register(over, "sigops-over-" + last_place, "bad-blk-sigops");
+        bool over_legacy_stage = false;
+        for (const auto& f : rb_over->faults) over_legacy_stage = over_legacy_stage || f.stage == Stage::CHECKBLOCK;
+        if (over_cost <= 80000 || over_cost > 80004 || (!over_legacy_stage && rb_over->sigop_cost != over_cost)) {
+            throw std::runtime_error("sigops-over block: generator cost " + std::to_string(over_cost) + ", model cost " + std::to_string(rb_over->sigop_cost));
+        }
+        SendTagged(rb_over, "sigops_over_rej_" + last_place, true);
+        auto at = build(false);
+        RefBlock* rb_at = Register(at, "sigops-at-limit-" + last_place, "");
+        if (expected_cost > 80000 || expected_cost < 79997 || rb_at->sigop_cost != expected_cost) {
+            throw std::runtime_error("sigops-at-limit block: generator cost " + std::to_string(expected_cost) + ", model cost " + std::to_string(rb_at->sigop_cost));
+        }
+        SendTagged(rb_at, "sigops_at_limit_acc_" + last_place, true);
+        if (node.TipHash() == rb_at->hash) {
+            Obs("sigops_pair");
+            Obs("sigops_pair_" + last_place);
+        }
+    }
+    // ------------------------------------------------------------------ block weight / size limits (C06)
+    int big_left{0};
+    void AdvWeight()
+    {
+        if (big_left <= 0) return;
+        RefBlock* tip = Tip();
+        if (!tip || !led.ChainValid(tip)) return;
+        const int H = tip->height + 1;
+        if (!led.SegwitActiveFor(H + 1)) return;
+        std::set<COutPoint> used;
+        auto fund = PickCoin(tip, used, 100000);
+        if (!fund) return;
+        --big_left;
+        // block A: an output whose spend can carry an arbitrary witness item: P2WSH(OP_DROP OP_TRUE)
+        const CScript wscript = CScript() << OP_DROP << OP_TRUE;
+        uint256 wsh;
+        CSHA256().Write(wscript.data(), wscript.size()).Finalize(wsh.begin());
+        const CScript p2wsh = CScript() << OP_0 << std::vector<unsigned char>(wsh.begin(), wsh.end());
+        const CScript anyone = CScript() << OP_TRUE;
+        CTransactionRef setup = Tx({*fund}, {CTxOut(20000, p2wsh), CTxOut(20000, p2wsh), CTxOut(20000, p2wsh), CTxOut(fund->out.nValue - 70000, RandSpk())});
+        RefBlock* A = Register(BuildOn(tip, {setup}), "weight-setup", "");
+        SendTagged(A, "weight_setup_acc", true);
+        if (node.TipHash() != A->hash) return;
+        const uint32_t t = NextTime(A);
+        const uint64_t the_salt = salt++;
+        // a block on A with one big tx: `bulk` bytes of non-witness data (OP_RETURN output) and a witness item of `pad` bytes
+        auto make = [&](uint32_t vout_n, size_t bulk, size_t pad) {
+            CMutableTransaction m;
+            m.version = 2;
+            m.vin.emplace_back(COutPoint(setup->GetHash(), vout_n));
+            m.vin[0].scriptWitness.stack = {std::vector<unsigned char>(pad, 0x77), std::vector<unsigned char>(wscript.begin(), wscript.end())};
+            std::vector<unsigned char> raw(bulk, 0x00);
+            raw[0] = OP_RETURN;
+            m.vout.emplace_back(0, CScript(raw.begin(), raw.end()));
+            m.vout.emplace_back(15000, anyone);
+            BlockSpec s;
+            s.time = t;
+            s.salt = the_salt + vout_n;
+            s.cb.spk = anyone;
+            return bb.Build(A, {MakeTransactionRef(m)}, s);
+        };
+        // size the block with the model's own calculator (the node's GetBlockWeight is what is under test)
+        auto fit = [&](uint32_t vout_n, int64_t target_weight, int64_t target_base) {
+            size_t bulk = 990000, pad = 200;
+            std::shared_ptr<CBlock> blk;
+            for (int it = 0; it < 6; ++it) {
+                blk = make(vout_n, bulk, pad);
+                const int64_t w = RefLedger::BlockWeight(*blk), b = RefLedger::BlockBaseSize(*blk);
+                if (target_base >= 0) {
+                    if (b == target_base) return blk;
+                    bulk = (size_t)((int64_t)bulk + (target_base - b));
+                } else {
+                    if (w == target_weight) return blk;
+                    const int64_t d = target_weight - w;
+                    // 4 units per non-witness byte, 1 per witness byte; keep the pad inside 0..520
+                    int64_t dq = d / 4, dr = d % 4;
+                    if ((int64_t)pad + dr < 0) { dq -= 1; dr += 4; }
+                    if ((int64_t)pad + dr > 520) { dq += 1; dr -= 4; }
+                    bulk = (size_t)((int64_t)bulk + dq);
+                    pad = (size_t)((int64_t)pad + dr);
+                }
+            }
+            throw std::runtime_error("could not fit a block to the requested weight/size");
+        };
+        const int kind = (int)rng.below(3);
+        if (kind == 0) {
+            // weight exactly one over, by a witness byte (step 1)
+            RefBlock* over = Register(fit(0, 4000001, -1), "weight-4000001", "bad-blk-weight");
+            SendTagged(over, "weight_over_rej", true);
+        } else if (kind == 1) {
+            // weight over by one non-witness byte (step 4)
+            RefBlock* over = Register(fit(0, 4000004, -1), "weight-4000004", "bad-blk-weight");
+            SendTagged(over, "weight_over_rej", true);
+        } else {
+            // stripped size 1,000,001 bytes: the size rule fires before anything else
+            RefBlock* over = Register(fit(0, -1, 1000001), "base-size-1000001", "bad-blk-length");
+            SendTagged(over, "length_over_rej", true);
+        }
+        RefBlock* at = Register(fit(1, 4000000, -1), "weight-4000000", "");
+        if (at->weight != 4000000) throw std::runtime_error("at-limit block has model weight " + std::to_string(at->weight));
+        SendTagged(at, "weight_at_limit_acc", true);
+        if (node.TipHash() == at->hash) Obs("weight_pair");
+    }
+
+    std::string last_place;
+
+    void AdvLimits()
+    {
+        RefBlock* tip = Tip();
+        if (!tip || !led.ChainValid(tip)) return;
+        const int H = tip->height + 1;
+        std::set<COutPoint> used;
+        std::vector<CTransactionRef> txs = ValidTxs(tip, 2, used);
+        const int kind = (int)rng.below(12);
+        switch (kind) {
+        case 0: {
+            // no coinbase
+            if (txs.empty()) {
+                auto c = PickCoin(tip, used, 5000);
+                if (!c) return;
+                txs.push_back(Tx({*c}, {CTxOut(c->out.nValue - 500, RandSpk())}));
+            }
+            auto blk = BuildOn(tip, txs);
+            blk->vtx.erase(blk->vtx.begin());
+            blk->hashMerkleRoot = BlockMerkleRoot(*blk);
+            BlockBuilder::Solve(*blk);
+            SendTagged(Register(blk, "no-coinbase", "bad-cb-missing"), "cb_struct_rej", true);
+            break;
+        }
+        case 1: {
+            // two coinbases / coinbase not first
+            auto blk = BuildOn(tip, txs);
+            CMutableTransaction cb2(*blk->vtx[0]);
+            cb2.vin[0].scriptSig = CScript() << H << std::vector<unsigned char>{1, 2, 3, 4};
+            cb2.vin[0].scriptWitness.stack.clear();
+            cb2.vout.resize(1);
+            cb2.vout[0].nValue = 0;
+            const bool misplaced = rng.coin() && blk->vtx.size() > 1;
+            if (misplaced) {
+                std::swap(blk->vtx[0], blk->vtx[1]);
+            } else {
+                blk->vtx.insert(blk->vtx.begin() + 1 + rng.below(blk->vtx.size()), MakeTransactionRef(cb2));
+            }
+            blk->hashMerkleRoot = BlockMerkleRoot(*blk);
+            BlockBuilder::Solve(*blk);
+            SendTagged(Register(blk, misplaced ? "coinbase-misplaced" : "two-coinbases", misplaced ? "bad-cb-missing" : "bad-cb-multiple"), "cb_struct_rej", true);
+            break;
+        }
+        case 2: case 3: {
+            // BIP34: the coinbase must start with the block height
+            const int wrong = rng.coin() ? H + 1 : H - 1;
+            auto blk = BuildOn(tip, txs, [&](BlockSpec& s) { s.cb.bip34_height = wrong; });
+            if (led.Bip34ActiveFor(H)) {
+                SendTagged(Register(blk, "bip34-wrong-height", "bad-cb-height"), "bip34_rej", true);
+                SendTagged(Register(BuildOn(tip, txs), "bip34-right-height", ""), "bip34_acc", true);
+            } else {
+                SendTagged(Register(blk, "bip34-not-active-yet", ""), "bip34_preactivation_acc", true);
+            }
+            break;
+        }
+        case 4: {
+            // coinbase scriptSig length 2..100
+            const size_t prefix = RefLedger::Bip34Prefix(H).size();
+            const bool over = rng.coin();
+            const size_t want = over ? 101 : 100;
+            auto mk = [&](size_t len) {
+                return BuildOn(tip, txs, [&](BlockSpec& s) {
+                    CScript sc = CScript() << H;
+                    std::vector<unsigned char> pad(len - prefix - 1, 0x42); // one direct push (<= 75 bytes) or OP_PUSHDATA1
+                    if (pad.size() > 75) pad.resize(len - prefix - 2);
+                    sc << pad;
+                    s.cb.raw_script_sig = sc;
+                });
+            };
+            auto blk = mk(want);
+            if (blk->vtx[0]->vin[0].scriptSig.size() != want) throw std::runtime_error("coinbase scriptSig length construction failed");
+            if (over) SendTagged(Register(blk, "cb-scriptsig-101", "bad-cb-length"), "cb_length_rej", true);
+            else SendTagged(Register(blk, "cb-scriptsig-100", ""), "cb_length_acc", true);
+            break;
+        }
+        case 5: {
+            // merkle root does not match the transactions
+            auto blk = BuildOn(tip, txs, [&](BlockSpec& s) { s.bad_merkle = true; });
+            SendTagged(Register(blk, "bad-merkle-root", "bad-txnmrklroot"), "merkle_rej", true);
+            break;
+        }
+        case 6: {
+            // header time: = MTP (too old) / MTP+1 (ok)
+            auto bad = BuildOn(tip, txs, [&](BlockSpec& s) { s.time = (uint32_t)tip->mtp; });
+            SendTagged(Register(bad, "time-at-mtp", "time-too-old"), "time_old_rej", true);
+            auto ok = BuildOn(tip, txs, [&](BlockSpec& s) { s.time = (uint32_t)tip->mtp + 1; });
+            SendTagged(Register(ok, "time-mtp+1", ""), "time_mtp1_acc", true);
+            break;
+        }
+        case 7: {
+            // header time: now+7201 (too new, refused for now) / now+7200 (ok)
+            SyncClock();
+            const int64_t now = node.Time();
+            auto bad = BuildOn(tip, txs, [&](BlockSpec& s) { s.time = (uint32_t)(now + 7201); });
+            RefBlock* rb = Register(bad, "time-now+7201", "");
+            {
+                const uint256 before = node.TipHash();
+                DeliverResult d = Send(rb, {}, "adv", true);
+                const bool rejected = d.blk.verdict && !d.blk.verdict->valid && d.blk.verdict->reason == "time-too-new";
+                if (rejected && node.TipHash() == before) Obs("time_new_rej");
+                if (tagged.size() < 60) tagged.push_back(vh::J().str("tag", rb->meta.tag).i("h", rb->height).str("expect", "TIME_FUTURE:time-too-new@header").str("observed", d.blk.verdict ? d.blk.verdict->ResultName() + ":" + d.blk.verdict->reason : "none").str("index", d.index_after.Str()).done());
+            }
+            auto ok = BuildOn(tip, txs, [&](BlockSpec& s) { s.time = (uint32_t)(now + 7200); });
+            RefBlock* rbo = Register(ok, "time-now+7200", "");
+            SendTagged(rbo, "time_now7200_acc", true);
+            if (node.TipHash() == rbo->hash) clock = std::max<int64_t>(clock, now); // do not jump the clock by two hours
+            break;
+        }
+        case 8: {
+            // wrong difficulty bits / hash above target
+            if (rng.coin()) {
+                auto blk = BuildOn(tip, txs, [&](BlockSpec& s) { s.bits = 0x207ffffe; });
+                SendTagged(Register(blk, "wrong-nbits", "bad-diffbits"), "diffbits_rej", true);
+            } else {
+                auto blk = BuildOn(tip, txs, [&](BlockSpec& s) { s.solve = false; });
+                BlockBuilder::UnSolve(*blk);
+                SendTagged(Register(blk, "hash-above-target", "high-hash"), "high_hash_rej", true);
+            }
+            break;
+        }
+        case 9: {
+            // witness data without a commitment / commitment without the coinbase nonce
+            auto c = PickCoin(tip, used, 5000);
+            if (!c) return;
+            const CScript wspk = keys.Spk(OutType::P2WPKH, 0);
+            spk_info[wspk] = {OutType::P2WPKH, 0};
+            // need a witness spend: fund a P2WPKH output first, spend it in the same block
+            CTransactionRef t1 = Tx({*c}, {CTxOut(c->out.nValue - 300, wspk)});
+            Spendable s;
+            s.op = COutPoint(t1->GetHash(), 0);
+            s.out = t1->vout[0];
+            CTransactionRef t2 = Tx({s}, {CTxOut(s.out.nValue - 300, RandSpk())});
+            if (!t2->HasWitness()) return;
+            if (!led.SegwitActiveFor(H)) return;
+            if (rng.coin()) {
+                auto blk = BuildOn(tip, {t1, t2}, [&](BlockSpec& sp) { sp.commit_witness = false; });
+                SendTagged(Register(blk, "witness-without-commitment", "unexpected-witness"), "witness_rej", true);
+            } else {
+                auto blk = BuildOn(tip, {t1, t2}, [&](BlockSpec& sp) { sp.cb.no_witness_nonce = true; });
+                SendTagged(Register(blk, "commitment-without-nonce", "bad-witness-nonce-size"), "witness_rej", true);
+            }
+            SendTagged(Register(BuildOn(tip, {t1, t2}), "witness-committed", ""), "witness_acc", true);
+            break;
+        }
+        case 10:
+            if (big_left > 0) {
+                AdvWeight();
+                break;
+            }
+            [[fallthrough]];
+        default:
+            AdvSigops();
+            break;
+        }
+    }
+
+    // ------------------------------------------------------------------ class tree (C08): invalid block inside a branch
+    //! a block that fails only when connected: coinbase +1, or one invalid signature
+    RefBlock* MakeConnectInvalid(RefBlock* parent, std::string* why)
+    {
+        std::set<COutPoint> used;
+        const int H = parent->height + 1;
+        if (rng.coin()) {
+            auto c = PickCoin(parent, used, 5000);
+            if (c && spk_info.count(c->out.scriptPubKey) && spk_info[c->out.scriptPubKey].first != OutType::ANYONE) {
+                CMutableTransaction m = MakeTx(keys, {*c}, {CTxOut(c->out.nValue - 500, RandSpk())});
+                if (BreakSignature(m, 0)) {
+                    auto blk = BuildOn(parent, {MakeTransactionRef(m)});
+                    *why = "block-script-verify-flag-failed";
+                    Obs("bad_script_blocks");
+                    return Register(blk, "bad-signature", *why, {1});
+                }
+            }
+        }
+        std::vector<CTransactionRef> txs = ValidTxs(parent, 2, used);
+        const CAmount fees = std::max<CAmount>(0, bb.FeesOf(parent, txs));
+        auto blk = BuildOn(parent, txs, [&](BlockSpec& s) { s.cb.value = led.Subsidy(H) + fees + 1; });
+        *why = "bad-cb-amount";
+        return Register(blk, "cb+1", *why);
+    }
+
+    void InvalidBranch()
+    {
+        RefBlock* tip = Tip();
+        if (!tip || !led.ChainValid(tip)) return;
+        const int depth = (int)rng.below(6);
+        RefBlock* fork = tip;
+        for (int i = 0; i < depth && fork->parent; ++i) fork = fork->parent;
+        const int len = depth + 1 + (int)rng.below(4); // more work than the active chain
+        const int bad_pos = (int)rng.below(len);
+        std::vector<RefBlock*> branch;
+        RefBlock* p = fork;
+        RefBlock* bad = nullptr;
+        std::string why;
+        for (int i = 0; i < len; ++i) {
+            RefBlock* b;
+            if (i == bad_pos) {
+                b = MakeConnectInvalid(p, &why);
+                bad = b;
+            } else {
+                b = MakeValid(p, 2, i > bad_pos ? "on-invalid" : "branch");
+            }
+            branch.push_back(b);
+            p = b;
+        }
+        const RefBlock* expect_tip_candidate = bad_pos > 0 ? branch[bad_pos - 1] : nullptr;
+        const int mode = (int)rng.below(3);
+        if (mode == 0) {
+            for (RefBlock* b : branch) Send(b, {}, "invalid-branch");
+        } else if (mode == 1) {
+            // headers of the whole branch first; data of the descendants before the invalid ancestor's data
+            for (RefBlock* b : branch) {
+                DeliverOpts o;
+                o.header_only = true;
+                Send(b, o, "invalid-branch-hdr");
+            }
+            Obs("headers_first");
+            std::vector<RefBlock*> order = branch;
+            std::reverse(order.begin() + bad_pos, order.end());
+            for (RefBlock* b : order) Send(b, {}, "invalid-branch-data");
+            Obs("data_out_of_order");
+        } else {
+            // everything but the invalid block first (headers known), the invalid block's data last
+            for (RefBlock* b : branch) {
+                DeliverOpts o;
+                o.header_only = true;
+                Send(b, o, "invalid-branch-hdr");
+            }
+            for (RefBlock* b : branch) {
+                if (b != bad) Send(b, {}, "invalid-branch-data");
+            }
+            Send(bad, {}, "invalid-branch-bad-last");
+        }
+        // outcome: the node tried the branch (it has more work), found the invalid block, and is on the best valid chain
+        std::optional<Verdict> v = node.Verdicts().Last(bad->hash);
+        RefBlock* now = Tip();
+        const bool skipped = v && !v->valid && now && !led.IsDescendantOrSelf(now, bad);
+        if (skipped) {
+            Obs("invalid_ancestor_skipped");
+            if (bad_pos + 1 < len) Obs("invalid_with_descendants");
+        }
+        if (tagged.size() < 60) {
+            tagged.push_back(vh::J().str("tag", "invalid-branch/" + bad->meta.tag).i("h", bad->height).i("branch_len", len).i("bad_pos", bad_pos).i("fork_depth", depth).str("expect", "CONSENSUS:" + why + "@connect")
+                                 .str("observed", v ? v->ResultName() + ":" + v->reason : "none").b("tip_on_valid_prefix", expect_tip_candidate && now == expect_tip_candidate).done());
+        }
+        sig.insert("invalid-branch" + std::to_string(depth) + "/" + std::to_string(len) + "@" + std::to_string(bad_pos));
+    }
+
+    // ------------------------------------------------------------------ C01 component: value-range branches no honest regtest chain can reach
+    //! ConnectBlock(fJustCheck) on a cache layered over CoinsTip() into which coins of up to MAX_MONEY(+1) were injected.
+    void ValueRangeComponent()
+    {
+        RefBlock* rtip = Tip();
+        if (!rtip || !led.ChainValid(rtip)) return;
+        const CScript anyone = CScript() << OP_TRUE;
+        struct Scen {
+            const char* name;
+            std::vector<std::vector<CAmount>> tx_inputs; // per tx: values of injected coins it spends
+            std::vector<CAmount> tx_out;                 // per tx: single output value
+        };
+        const std::vector<Scen> scens = {
+            {"fees-accumulate-over", {{MAXM}, {MAXM}}, {0, 0}},
+            {"fees-accumulate-at", {{MAXM - 5}, {5}}, {0, 0}},
+            {"inputs-sum-over", {{MAXM, 1}}, {MAXM}},
+            {"inputs-sum-at", {{MAXM - 1, 1}}, {MAXM}},
+            {"input-single-over", {{MAXM + 1}}, {MAXM}},
+        };
+        for (const Scen& sc : scens) {
+            // expectation by own arithmetic
+            std::string want;
+            {
+                __int128 fees = 0;
+                for (size_t t = 0; t < sc.tx_inputs.size() && want.empty(); ++t) {
+                    __int128 in = 0;
+                    for (CAmount v : sc.tx_inputs[t]) {
+                        in += v;
+                        if (v < 0 || v > MAXM || in > MAXM) want = "bad-txns-inputvalues-outofrange";
+                    }
+                    if (!want.empty()) break;
+                    if (in < sc.tx_out[t]) want = "bad-txns-in-belowout";
+                    if (!want.empty()) break;
+                    fees += in - sc.tx_out[t];
+                    if (fees > MAXM) want = "bad-txns-accumulated-fee-outofrange";
+                }
+            }
+            LOCK(::cs_main);
+            Chainstate& cs = node.Chainman().ActiveChainstate();
+            CCoinsViewCache view(&cs.CoinsTip());
+            std::vector<CTransactionRef> txs;
+            for (size_t t = 0; t < sc.tx_inputs.size(); ++t) {
+                CMutableTransaction m;
+                m.version = 2;
+                for (CAmount v : sc.tx_inputs[t]) {
+                    auto rb32 = rng.bytes(32);
+                    COutPoint op(Txid::FromUint256(uint256{std::span<const unsigned char>(rb32)}), 0);
+                    view.AddCoin(op, Coin(CTxOut(v, anyone), 1, false), false);
+                    m.vin.emplace_back(op);
+                }
+                m.vout.emplace_back(sc.tx_out[t], anyone);
+                txs.push_back(MakeTransactionRef(m));
+            }
+            BlockSpec s = Spec(rtip);
+            s.solve = false;
+            s.cb.value = led.Subsidy(rtip->height + 1);
+            auto blk = bb.Build(rtip, txs, s, /*fees_hint=*/0);
+            CBlockIndex index_dummy{*blk};
+            uint256 block_hash(blk->GetHash());
+            CBlockIndex* tip = cs.m_chain.Tip();
+            index_dummy.pprev = tip;
+            index_dummy.nHeight = tip->nHeight + 1;
+            index_dummy.phashBlock = &block_hash;
+            BlockValidationState st;
+            const bool ok = cs.ConnectBlock(*blk, st, &index_dummy, view, /*fJustCheck=*/true);
+            const std::string got = ok ? "" : st.GetRejectReason();
+            if (got != want) {
+                Violations v;
+                v.push_back({"value-range-verdict", "ConnectBlock on injected high-value coins: verdict differs from own arithmetic",
+                             vh::J().str("scenario", sc.name).str("expected", want.empty() ? "VALID" : want).str("observed", ok ? "VALID" : got).done()});
+                Report(v, "value-range-component");
+            }
+            Obs(want.empty() ? "value_range_component_acc" : "value_range_component_rej");
+            if (want == "bad-txns-accumulated-fee-outofrange" && got == want) Obs("fee_outofrange_rej");
+            if (want == "bad-txns-inputvalues-outofrange" && got == want) Obs("inputvalues_outofrange_rej");
+            if (tagged.size() < 60) tagged.push_back(vh::J().str("tag", std::string("component/") + sc.name).i("h", rtip->height + 1).str("expect", want.empty() ? "VALID" : "CONSENSUS:" + want).str("observed", ok ? "VALID" : "CONSENSUS:" + got).done());
+        }
+    }
+
     void FlushCheck()
     {
         const bool wipe = rng.coin();
@@ -519,7 +1642,15 @@ NodeOpts RandomOpts(vh::Rng& rng, Cls cls)
         o.coins_db_in_memory = false;
         o.block_tree_db_in_memory = false;
     }
-    (void)cls;
+    if (cls == Cls::SPEND || cls == Cls::MIXED || cls == Cls::REORG) {
+        if (rng.coin()) o.h_bip34 = 100000; // duplicate coinbases become constructible (BIP30 cases)
+    }
+    if (cls == Cls::TIMELOCK || cls == Cls::MIXED) {
+        if (rng.chance(1, 3)) o.h_csv = 110 + (int)rng.below(200); // BIP68/BIP113 activate in the middle of the history
+    }
+    if (cls == Cls::LIMITS || cls == Cls::MIXED) {
+        if (rng.chance(1, 4)) o.h_bip34 = 150 + (int)rng.below(200);
+    }
     return o;
 }
 
@@ -531,14 +1662,17 @@ VH_CMD(chainsim)
     const Cls cls = ParseCls(cls_name);
     const int base_min = (int)args.geti("base_min", 101), base_max = (int)args.geti("base_max", 250);
     const int act_min = (int)args.geti("act_min", 60), act_max = (int)args.geti("act_max", 300);
+    Prof::On() = args.geti("prof", 0) != 0;
     for (uint64_t c = args.from; c < args.to; ++c) {
         vh::set_case(c);
+        Prof total("total");
         vh::Rng rng(args.seed, c);
         NodeOpts opts = RandomOpts(rng, cls);
         SimNode node(opts);
         RefLedger led(RefParams::FromNodeOpts(opts));
         KeyRing keys(rng, 6);
         Hist h(args, c, rng, cls, opts, node, led, keys);
+        h.big_left = (int)args.geti("big", cls == Cls::LIMITS ? 1 : 0);
 
         const int base = (int)rng.range(base_min, base_max);
         const int nact = (int)rng.range(act_min, act_max);
@@ -551,8 +1685,18 @@ VH_CMD(chainsim)
         }
         if (led.Subsidy(node.TipHeight()) < led.Subsidy(1)) h.Obs("halving_crossed");
         // ---- actions
+        //                          extend fork dup inval recons prec flush value spend tlock limits invbranch
+        std::vector<uint32_t> w;
+        switch (cls) {
+        case Cls::VALUE:    w = {20, 5, 1, 2, 2, 1, 3, 30, 2, 2, 2, 2}; break;
+        case Cls::SPEND:    w = {20, 6, 1, 2, 2, 1, 6, 2, 30, 2, 2, 2}; break;
+        case Cls::TIMELOCK: w = {20, 6, 1, 2, 2, 1, 2, 1, 1, 32, 1, 1}; break;
+        case Cls::LIMITS:   w = {15, 3, 1, 1, 1, 1, 1, 1, 1, 1, 30, 1}; break;
+        case Cls::TREE:     w = {25, 14, 4, 6, 5, 4, 3, 1, 1, 1, 1, 12}; break;
+        case Cls::REORG:    w = {25, 20, 2, 6, 5, 2, 8, 1, 2, 1, 0, 4}; break;
+        default:            w = {20, 8, 2, 3, 3, 2, 3, 6, 6, 6, 6, 5}; break;
+        }
         for (int a = 0; a < nact; ++a) {
-            const std::vector<uint32_t> w = {30, 12, 4, 5, 4, 3, 5};
             switch (rng.weighted(w)) {
             case 0: h.Extend(1 + rng.below(2)); break;
             case 1: {
@@ -566,8 +1710,14 @@ VH_CMD(chainsim)
             case 4: h.ReconsiderSome(); break;
             case 5: h.PreciousSome(); break;
             case 6: h.FlushCheck(); break;
+            case 7: h.AdvValue(); break;
+            case 8: h.AdvSpend(); break;
+            case 9: h.AdvTimelock(); break;
+            case 10: h.AdvLimits(); break;
+            case 11: h.InvalidBranch(); break;
             }
         }
+        if (cls == Cls::VALUE || cls == Cls::MIXED) h.ValueRangeComponent();
         // ---- end: complete comparison
         h.Report(CheckUtxoFull(node, led, /*wipe_cache=*/true), "final");
         h.Obs("full_utxo_compares");
@@ -591,6 +1741,11 @@ VH_CMD(chainsim)
         j.raw("st", stj + "}");
         j.raw("tagged", vh::JArr(h.tagged));
         j.raw("samples", vh::JArr(h.samples));
+        if (Prof::On()) {
+            std::string pj = "{";
+            for (const auto& [k, v] : Prof::Acc()) pj += vh::JStr(k) + ":" + std::to_string((int64_t)v) + ",";
+            j.raw("prof_ms", pj + "\"_\":0}");
+        }
         vh::log().rec(j);
         vh::log().obs("revisits", (int64_t)h.revisit.Revisits());
         vh::log().obs("histories");
